@@ -79,6 +79,11 @@ func GetObject(rootGoitPath string, hash sha.SHA1) (*Object, error) {
 
 	objHash := checkSum.Sum(nil)
 
+	// the file must hold the object it is named after
+	if !bytes.Equal(objHash, hash) {
+		return nil, ErrInvalidObject
+	}
+
 	object := &Object{
 		Type: objType,
 		Hash: objHash,
